@@ -104,8 +104,27 @@ def main(argv):
             if not agree(io, mo):
                 if nv < 4:
                     nv += 1
-                    rep.violation(f'correspondence legA:ParserObj broken at op {oi}', {'correspondence': 'legA:ParserObj.run_history',
-                                  'history': h, 'impl': str(io)[:1500], 'model': str(mo)[:1500]}, failing_input=False)
+                    # Is it the history (C16) or the parser as such (C05)?  Parse the same document alone in a FRESH interpreter
+                    # (the in-process "alone" reference above shares the interpreter with every other document of this run).
+                    doc = None
+                    cur = {}
+                    n = 0
+                    for op2 in h[:oi + 1]:
+                        if op2[0] == 'new':
+                            cur[n] = op2[1]
+                            n += 1
+                        elif op2[0] == 'load':
+                            cur[op2[1]] = op2[2]
+                    doc = cur.get(op[1])
+                    fresh = run_impl('json_worker', {'cases': [{'op': 'history', 'ops': [['new', doc], ['process', 0]]}]}, timeout=600)['results'][0]
+                    fo = impl_outcome({'ok': fresh['ok']['results'][1]}) if 'ok' in fresh else ('internal', str(fresh))
+                    if not agree(io, fo):
+                        rep.violation(f'process() #{oi} of a history differs from parsing the same document alone in a fresh interpreter '
+                                      f'(state shared between parser instances or parses): {str(io)[:150]} vs {str(fo)[:150]}',
+                                      {'history': h, 'op_index': oi, 'in_history': str(io)[:2000], 'alone_in_fresh_interpreter': str(fo)[:2000]})
+                    else:
+                        rep.violation(f'correspondence legA:ParserObj broken at op {oi}', {'correspondence': 'legA:ParserObj.run_history',
+                                      'history': h, 'impl': str(io)[:1500], 'model': str(mo)[:1500]}, failing_input=False)
                 break
     gate = proof_gate('C16')
     return rep.finish(gate, 'histories of 3-12 operations over 1-4 parser instances (construct with/without document, load_file, '
